@@ -877,12 +877,12 @@ func init() {
 			"a key type is used only for k-mer sizes it can hold (2k <= width)",
 		},
 		Subs: []core.Sub{
-			{Name: "weights", N: core.Const(64, 128), Run: runWeights, Shard: 2, TimeoutS: 3600},
-			{Name: "path", N: core.Const(64, 128), Run: runPath, Shard: 2, TimeoutS: 3600},
-			{Name: "cycle", N: core.Const(64, 128), Run: runCycle, Shard: 2, TimeoutS: 3600},
-			{Name: "identity", N: core.Const(32, 64), Run: runIdentity, Shard: 2, TimeoutS: 3600},
-			{Name: "canonical", N: core.Const(nCombos, nCombos*2), Run: runCanonical, Shard: 4, TimeoutS: 3600},
-			{Name: "fourmer", N: core.Const(32, 64), Run: runFourmer, Shard: 2, TimeoutS: 3600},
+			{Name: "weights", N: core.Const(64, 512), Run: runWeights, Shard: 2, TimeoutS: 3600},
+			{Name: "path", N: core.Const(64, 512), Run: runPath, Shard: 2, TimeoutS: 3600},
+			{Name: "cycle", N: core.Const(64, 512), Run: runCycle, Shard: 2, TimeoutS: 3600},
+			{Name: "identity", N: core.Const(32, 256), Run: runIdentity, Shard: 2, TimeoutS: 3600},
+			{Name: "canonical", N: core.Const(nCombos, nCombos*6), Run: runCanonical, Shard: 4, TimeoutS: 3600},
+			{Name: "fourmer", N: core.Const(32, 256), Run: runFourmer, Shard: 2, TimeoutS: 3600},
 		},
 		MinNontrivial: 500,
 		// every sub-check must have observed the situations it is about
